@@ -200,6 +200,19 @@ def gen_cases(ctx):
         if rng.random() < .3 and n:
             p = p[:-1] + bytes([rng.choice([1, 2, 16, 0, 17])])
         cases.append(("rand", kind, p, rng.randbytes(klen)))
+    # power-of-two boundaries and multiples of typical chunk sizes (a streaming / chunked rewrite of the cipher
+    # misbehaves exactly there): 2^k-1, 2^k, 2^k+1 and m * 64 KiB, the aligned ones also ending in a byte that
+    # looks like PKCS7 padding
+    ks = range(7, 18) if ctx.tier == "quick" else range(7, 21)
+    big = sorted(set([(1 << k) + d for k in ks for d in (-1, 0, 1)] +
+                     [m * 65536 for m in ((1, 2, 3) if ctx.tier == "quick" else (1, 2, 3, 4, 5, 8))] +
+                     [m * 4096 for m in (1, 3)] + [m * 8192 for m in (1, 3)]))
+    for i, n in enumerate(big):
+        kind = KIND_ORDER[i % len(KIND_ORDER)]
+        p = rng.randbytes(n)
+        cases.append(("boundary", kind, p, rng.randbytes(32)))
+        if n % 16 == 0:
+            cases.append(("boundary", kind, p[:-1] + b"\x01", rng.randbytes(32)))
     # free info strings through the generic encrypt/decrypt
     for i in range(10 if ctx.tier == "quick" else 200):
         info = rng.randbytes(rng.choice([0, 1, 5, 19, 40]))
